@@ -12,55 +12,35 @@ package object_patch
 //@ ghost lastSpecs []OperationSpec
 //@ ghost lastDecodeErr error
 //@ trusted func unmarshalFromJSONOrYAML
-//@   modifies lastSpecs, lastDecodeErr, nDocs, docLog, lastDecErr
+//@   modifies lastSpecs, lastDecodeErr
 //@   ghostset lastSpecs := result0
 //@   ghostset lastDecodeErr := result1
-
-// Ghost log of the documents a stream decoder produced (one entry per Decode that returned no
-// error) and the latest decoder error. What the decoders make of the bytes is assumed.
-//@ ghost nDocs int
-//@ ghost docLog map[int]OperationSpec
-//@ ghost lastDecErr error
-//@ package encoding/json
-//@ trusted func (*Decoder).Decode
-//@   modifies object_patch.nDocs, object_patch.docLog, object_patch.lastDecErr
-//@   ghostset object_patch.lastDecErr := result
-//@   ensures result == nil && dyntype(v, *object_patch.OperationSpec) ==> object_patch.nDocs == old(object_patch.nDocs) + 1 && object_patch.docLog[old(object_patch.nDocs)] == *v.(*object_patch.OperationSpec)
-//@   ensures result != nil ==> object_patch.nDocs == old(object_patch.nDocs)
-//@   ensures forall(k, 0, old(object_patch.nDocs), object_patch.docLog[k] == old(object_patch.docLog[k]))
-//@ package gopkg.in/yaml.v3
-//@ trusted func (*Decoder).Decode
-//@   modifies object_patch.nDocs, object_patch.docLog, object_patch.lastDecErr
-//@   ghostset object_patch.lastDecErr := result
-//@   ensures result == nil && dyntype(v, *object_patch.OperationSpec) ==> object_patch.nDocs == old(object_patch.nDocs) + 1 && object_patch.docLog[old(object_patch.nDocs)] == *v.(*object_patch.OperationSpec)
-//@   ensures result != nil ==> object_patch.nDocs == old(object_patch.nDocs)
-//@   ensures forall(k, 0, old(object_patch.nDocs), object_patch.docLog[k] == old(object_patch.docLog[k]))
-//@ package io
-//@ package github.com/flant/shell-operator/pkg/kube/object_patch
 
 // C13: a stream yields exactly the documents its decoder produced, each once and in order - none
 // is dropped, whatever it contains -, and a decoder error other than the end of the stream fails
 // the whole stream.
 //@ func unmarshalFromYaml
 //@   prop C13
-//@   requires nDocs >= 0
+//@   requires yaml.nDecoded >= 0
 //@   requires [assumed:io.EOF-is-a-non-nil-error] io.EOF != nil
-//@   modifies nDocs, docLog, lastDecErr, allelems(OperationSpec)
-//@   ensures [count] result1 == nil ==> len(result0) == nDocs - old(nDocs)
-//@   ensures [every-document-in-order] result1 == nil ==> forall(j, 0, len(result0), result0[j] == docLog[old(nDocs) + j])
-//@   ensures [decoder-error-fails] result1 == nil ==> lastDecErr == io.EOF
+//@   modifies yaml.nDecoded, yaml.decodedInto, yaml.lastDecErr, allelems(OperationSpec)
+//@   ensures [count] result1 == nil ==> len(result0) == yaml.nDecoded - old(yaml.nDecoded)
+//@   ensures [every-document-in-order] result1 == nil ==> forall(j, 0, len(result0), dyntype(yaml.decodedInto[old(yaml.nDecoded) + j], *OperationSpec) && result0[j] == *yaml.decodedInto[old(yaml.nDecoded) + j].(*OperationSpec))
+//@   ensures [decoder-error-fails] result1 == nil ==> yaml.lastDecErr == io.EOF
 //@   loop 1
-//@     invariant nDocs >= old(nDocs) && len(specSlice) == nDocs - old(nDocs) && forall(j, 0, len(specSlice), specSlice[j] == docLog[old(nDocs) + j])
+//@     invariant yaml.nDecoded >= old(yaml.nDecoded) && len(specSlice) == yaml.nDecoded - old(yaml.nDecoded)
+//@     invariant forall(j, 0, len(specSlice), dyntype(yaml.decodedInto[old(yaml.nDecoded) + j], *OperationSpec) && allocated(yaml.decodedInto[old(yaml.nDecoded) + j].(*OperationSpec)) && specSlice[j] == *yaml.decodedInto[old(yaml.nDecoded) + j].(*OperationSpec))
 //@ func unmarshalFromJson
 //@   prop C13
-//@   requires nDocs >= 0
+//@   requires json.nDecoded >= 0
 //@   requires [assumed:io.EOF-is-a-non-nil-error] io.EOF != nil
-//@   modifies nDocs, docLog, lastDecErr, allelems(OperationSpec)
-//@   ensures [count] result1 == nil ==> len(result0) == nDocs - old(nDocs)
-//@   ensures [every-document-in-order] result1 == nil ==> forall(j, 0, len(result0), result0[j] == docLog[old(nDocs) + j])
-//@   ensures [decoder-error-fails] result1 == nil ==> lastDecErr == io.EOF
+//@   modifies json.nDecoded, json.decodedInto, json.lastDecErr, allelems(OperationSpec)
+//@   ensures [count] result1 == nil ==> len(result0) == json.nDecoded - old(json.nDecoded)
+//@   ensures [every-document-in-order] result1 == nil ==> forall(j, 0, len(result0), dyntype(json.decodedInto[old(json.nDecoded) + j], *OperationSpec) && result0[j] == *json.decodedInto[old(json.nDecoded) + j].(*OperationSpec))
+//@   ensures [decoder-error-fails] result1 == nil ==> json.lastDecErr == io.EOF
 //@   loop 1
-//@     invariant nDocs >= old(nDocs) && len(specSlice) == nDocs - old(nDocs) && forall(j, 0, len(specSlice), specSlice[j] == docLog[old(nDocs) + j])
+//@     invariant json.nDecoded >= old(json.nDecoded) && len(specSlice) == json.nDecoded - old(json.nDecoded)
+//@     invariant forall(j, 0, len(specSlice), dyntype(json.decodedInto[old(json.nDecoded) + j], *OperationSpec) && allocated(json.decodedInto[old(json.nDecoded) + j].(*OperationSpec)) && specSlice[j] == *json.decodedInto[old(json.nDecoded) + j].(*OperationSpec))
 
 // validity of one document (OpenAPI schema v0) and the operation it denotes, as functions of the document
 //@ specfn SpecValid(s OperationSpec) bool
@@ -79,7 +59,7 @@ package object_patch
 // (handleRunHook returns before ExecuteOperations; see its contract).
 //@ func ParseOperations
 //@   prop C13
-//@   modifies lastSpecs, lastDecodeErr, nDocs, docLog, lastDecErr
+//@   modifies lastSpecs, lastDecodeErr
 //@   ensures [decode-error] lastDecodeErr != nil ==> result1 != nil && len(result0) == 0
 //@   ensures [all-or-nothing] lastDecodeErr == nil ==> (result1 == nil) == forall(j, 0, len(lastSpecs), SpecValid(lastSpecs[j]))
 //@   ensures [faithful]     result1 == nil ==> len(result0) == len(lastSpecs) && forall(j, 0, len(result0), result0[j] == opOf(lastSpecs[j]))
